@@ -90,6 +90,11 @@ def replay_one(hist, workers=None, clients=None, channels=None, after_step=None,
                 return w
         return workers[0]
 
+    def plan_from(prev, st):
+        for w, x in st["waiters"].items():
+            if x["on"] and x["box"] and (prev is None or prev["waiters"][w]["box"] != x["box"]):
+                plan.setdefault(x["box"], []).append(w)
+
     d = qsdriver.Driver(workers=workers or qstrace.WORKERS, clients=clients or qstrace.CLIENTS, policy=policy,
                         channels=channels or qstrace.CHANNELS, result_hook=result_hook)
     # cut the behaviour into segments: [ops...] then optionally a complete drain
@@ -99,15 +104,16 @@ def replay_one(hist, workers=None, clients=None, channels=None, after_step=None,
     try:
         while i < n:
             ops = []
-            while i < n and hist[i]["last"]["op"] not in ("runloop", "restart"):
+            while i < n and hist[i]["last"]["op"] not in ("runloop", "runloop0", "restart"):
                 if hist[i]["last"]["op"] in ("deliver", "drained"):
                     return {"machinery": "deliver outside a drain at step %d" % i}
                 ops.append(hist[i])
                 i += 1
-            # plan the hand-offs of this batch
+            # plan the hand-offs of this batch: whichever mailbox TLC filled is the waiter to pick
+            prev = hist[i - len(ops) - 1]["st"] if i - len(ops) - 1 >= 0 else None
             for h in ops:
-                if h["last"]["op"] == "add" and h["last"]["new"] and h["last"]["to"] != "heap":
-                    plan.setdefault(h["st"]["count"], []).append(h["last"]["to"])
+                plan_from(prev, h["st"])
+                prev = h["st"]
             if ops:
                 e0 = len(d.events)
                 d.run_batch([to_op(h["last"]) for h in ops])
@@ -143,17 +149,17 @@ def replay_one(hist, workers=None, clients=None, channels=None, after_step=None,
             # a drain: runloop, deliver*, drained  (incomplete at the end of the behaviour: stop)
             j = i + 1
             delivers = []
-            while j < n and hist[j]["last"]["op"] == "deliver":
-                delivers.append(hist[j])
-                j += 1
-            if j >= n or hist[j]["last"]["op"] != "drained":
-                break
+            if hist[i]["last"]["op"] == "runloop0":
+                j = i                    # nothing pending: the "drained" state is this one
+            else:
+                while j < n and hist[j]["last"]["op"] == "deliver":
+                    delivers.append(hist[j])
+                    j += 1
+                if j >= n or hist[j]["last"]["op"] != "drained":
+                    break
             prev = hist[i]["st"]
             for h in delivers:
-                if h["last"]["k"] == "kill":
-                    for w, x in h["st"]["waiters"].items():
-                        if x["on"] and x["box"] and prev["waiters"][w]["box"] != x["box"]:
-                            plan.setdefault(x["box"], []).append(w)
+                plan_from(prev, h["st"])
                 prev = h["st"]
             e0 = len(d.events)
             d.drain()
@@ -172,7 +178,7 @@ def replay_one(hist, workers=None, clients=None, channels=None, after_step=None,
                 elif lk == "evt":
                     silent = prev["fwait"][lw] == 0
                 else:
-                    silent = False
+                    silent = prev["conn"][lw] != "closing"
                 prev = h["st"]
                 if silent:
                     continue
